@@ -69,6 +69,8 @@ def run(R):
         R.check(got["sigma"] is not None and abs(1.0 / got["sigma"] - pq["inv_sigma"]) <= 1e-15, "C16-float", site + " sigma", f"1/sigma = {1.0 / got['sigma']} matches PQClean fpr_inv_sigma[{logn}]",
                 f"1/sigma {1.0 / got['sigma'] if got['sigma'] else None} vs PQClean {pq['inv_sigma']}", key=f"sigma|{N}")
         w = c05.widths(S, N)
+        # generated keys stay inside the range the reference's trim_i8 encoding can represent (-2^(bits-1) is forbidden there too)
+        c05.clause_repr(R, N, [pq["max_fg_bits"][logn], pq["max_fg_bits"][logn], pq["max_FG_bits"][logn]], rule="C16-keyrange")
         R.check(w[:2] == [pq["max_fg_bits"][logn]] * 2 and w[2] == pq["max_FG_bits"][logn], "C16-width", site, f"secret-key field widths {w} = PQClean max_fg_bits / max_FG_bits", f"{w} vs {pq['max_fg_bits'][logn]}, {pq['max_FG_bits'][logn]}", key=f"width|{N}")
         # decoders' accepted headers (shared with C06) and sizes; public key: 14-bit fields, values >= q rejected
         u8 = S.ty("u8")
